@@ -129,8 +129,39 @@ impl From<Instant> for Uptime {
     }
 }
 
+/// Verification hooks (compiled only with `--cfg tokio_rs_tracing_verif`).
+#[cfg(tokio_rs_tracing_verif)]
+#[doc(hidden)]
+pub mod __verif {
+    use std::cell::Cell;
+
+    thread_local! {
+        static CLOCK: Cell<Option<std::time::SystemTime>> = const { Cell::new(None) };
+    }
+
+    /// Sets (or clears) the instant that `SystemTime::format_time` prints on this thread
+    /// instead of `std::time::SystemTime::now()`.
+    pub fn set_clock(t: Option<std::time::SystemTime>) {
+        CLOCK.with(|c| c.set(t));
+    }
+
+    pub(super) fn clock() -> Option<std::time::SystemTime> {
+        CLOCK.with(|c| c.get())
+    }
+
+    /// Formats a caller-supplied instant through the same `DateTime::from` + `Display`
+    /// code path that `SystemTime::format_time` uses for the current time.
+    pub fn format_system_time(t: std::time::SystemTime) -> String {
+        format!("{}", super::datetime::DateTime::from(t))
+    }
+}
+
 impl FormatTime for SystemTime {
     fn format_time(&self, w: &mut Writer<'_>) -> fmt::Result {
+        #[cfg(tokio_rs_tracing_verif)]
+        if let Some(t) = __verif::clock() {
+            return write!(w, "{}", datetime::DateTime::from(t));
+        }
         write!(
             w,
             "{}",
